@@ -15,6 +15,9 @@ GenVerdict(o) ==
   THEN IF /\ "Dev_GeneratedIdentifierCollision" \in KnownDeviations /\ o.gen = "ok" /\ o.build = "fail"
           /\ S(o.names) \cap CollisionWitness(o.scope) # {}
        THEN "known=Dev_GeneratedIdentifierCollision"
+       \* several names that compile alone but not side by side: their Go identifiers coincide
+       ELSE IF "Dev_SiblingNameCollision" \in KnownDeviations /\ o.gen = "ok" /\ o.build = "fail" /\ o.aloneOK /\ o.scope \in SiblingCollisionScopes
+       THEN "known=Dev_SiblingNameCollision"
        ELSE IF o.gen = "ok" /\ o.build = "fail" /\ ShapeWitness(o.shapeName) \cap KnownDeviations # {}
        THEN "known=" \o (CHOOSE d \in ShapeWitness(o.shapeName) \cap KnownDeviations : TRUE)
        ELSE "viol-" \o o.gen \o "-" \o o.build
